@@ -131,6 +131,8 @@ class Path:
         self.inputs: dict = {}      # name -> Sym (for counter-model extraction)
         self.ghost: dict = {}
         self.notes: list = []
+        self.decided: dict = {}
+        self._keep: list = []
 
     # -- fresh symbols (deterministic per path => identical terms on re-execution)
     def fresh(self, name, kind):
@@ -168,6 +170,9 @@ class Path:
             return True
         if z3.is_false(c):
             return False
+        key = c.get_id()
+        if key in self.decided:
+            return self.decided[key]
         if self.pos < len(self.decisions):
             d = self.decisions[self.pos]
         else:
@@ -185,6 +190,8 @@ class Path:
             self.decisions.append(d)
         self.pos += 1
         self.pc.append(c if d else z3.Not(c))
+        self.decided[key] = d
+        self._keep.append(c)
         return d
 
     def choose(self, n: int) -> int:
